@@ -1165,10 +1165,10 @@ bool tree<Key, Value, ValueEqual>::compare(
               return false;
             }
           } else {
-            if ((compare_left_to_right && !po.default_is_top()) ||
-                (!compare_left_to_right && po.default_is_top())) {
-              return false;
-            }
+            // The only key of s is not bound in t. Either that key
+            // is required to be in t, or t (which is not empty)
+            // binds some other key that is required to be in s.
+            return false;
           }
           if (compare_left_to_right && po.default_is_top() && !t->is_leaf()) {
             return false;
